@@ -6,6 +6,7 @@ Correspondence: `FileSearcher.stats` after run() on single- and multi-file scena
 (empty files, files fully skipped by a constraint, filtered incomplete sections,
 duplicate registrations) and after a REPEATED run of the same searcher.
 """
+import os
 import shutil
 import tempfile
 
@@ -23,6 +24,12 @@ def gen_scenario(rng, tier, multi):
     nfiles = rng.choice([2, 3, 4]) if multi else 1
     scn = gen.gen_run_scenario(rng, tier, nfiles=nfiles)
     scn['_twice'] = rng.random() < 0.4
+    if scn['_twice'] and rng.random() < 0.5:
+        # between the two runs another search is registered on the same searcher
+        extra = gen.gen_simple_def(rng) if rng.random() < 0.7 else gen.gen_seq_def(rng)
+        scn['defs'].append(extra)
+        scn['_late_regs'] = [[len(scn['defs']) - 1, rng.randrange(nfiles)]
+                             for _ in range(rng.choice([1, 1, 2]))]
     return scn
 
 
@@ -33,7 +40,11 @@ def run_impl(scn):
         fs = built.searcher()
         K = S.scenario_K(scn)
         first = S.run_searcher(built, fs, K)
-        second = S.run_searcher(built, fs, K) if scn.get('_twice') else None
+        second = None
+        if scn.get('_twice'):
+            for di, fi in scn.get('_late_regs', []):
+                fs.add(built.defs[di], os.path.join(tmpdir, scn['files'][fi]['name']))
+            second = S.run_searcher(built, fs, K)
         return {'first': first, 'second': second}
     finally:
         shutil.rmtree(tmpdir, ignore_errors=True)
@@ -73,7 +84,14 @@ def direct_check(scn, obs, which):
     return None
 
 
-def judge(rep, item, mrun):
+def second_scn(scn):
+    """ the registrations in force at the second run """
+    s2 = dict(scn)
+    s2['regs'] = scn['regs'] + scn.get('_late_regs', [])
+    return s2
+
+
+def judge(rep, item, mrun, mrun2=None):
     scn, impl = item['scn'], item['impl']
     first, second = impl['first'], impl['second']
     nontriv = ('err' not in first and first['stats']['results'] > 0 and
@@ -85,11 +103,19 @@ def judge(rep, item, mrun):
     for which, obs in (('first', first), ('second', second)):
         if obs is None:
             continue
-        bad = direct_check(scn, obs, which)
+        bad = direct_check(scn if which == 'first' else second_scn(scn), obs, which)
         if bad:
             rep.fail('failing-input', scn, bad, impl=obs.get('stats'))
             return
-    if second is not None and S.pub(second) != S.pub(first):
+    if second is not None and scn.get('_late_regs'):
+        rep.count('add_between_runs')
+        diff2 = T.compare_run(second_scn(scn), second, mrun2)
+        if diff2:
+            kind = 'failing-input' if diff2.startswith('stats[') else 'correspondence-broken'
+            rep.fail(kind, scn, "second run (after registering another search): " + diff2,
+                     impl=second, model=mrun2)
+            return
+    elif second is not None and S.pub(second) != S.pub(first):
         a = first.get('stats', first)
         b = second.get('stats', second)
         rep.fail('failing-input', scn,
@@ -118,8 +144,10 @@ def run(tier, seed, replay_case=None):
                                   shards=min(core.NCPU, n_multi))
     drv = core.Driver()
     mruns = T.run_models([it['scn'] for it in items], drv)
-    for it, mr in zip(items, mruns):
-        judge(rep, it, mr)
+    late = [i for i, it in enumerate(items) if it['scn'].get('_late_regs') and it['scn'].get('_twice')]
+    mruns2 = dict(zip(late, T.run_models([second_scn(items[i]['scn']) for i in late], drv)))
+    for i, (it, mr) in enumerate(zip(items, mruns)):
+        judge(rep, it, mr, mruns2.get(i))
     rep.assumptions = ["lines actually read = lines of the content from the position the "
                        "seeker model computes (C04/C11)"]
     return rep.finish(aud, RULE)
